@@ -271,6 +271,12 @@ class Builder:
                 self.vars[t[1]] = saved
         if k == 'var':
             return self.vars[t[1]]
+        if k == 'map' and self.case.get('same_object') == t and not fresh:
+            # (rules only) ONE expression object for the bare condition of the body and a field of the head: flag = x.f;
+            # infer(entity(T(..., ok=flag), flag, ...))
+            if not hasattr(self, '_same'):
+                self._same = self.term(t, fresh=True)
+            return self._same
         if k == 'map':
             key = json.dumps(t)
             # an expression OBJECT is shared between the queries of a pool, never between two positions of ONE query (a node
